@@ -411,7 +411,7 @@ PROPS["C13"] = dict(
     forbid_in_src=[(r"serde\(\s*skip", "every field of the derived impls is serialized")],
     claim=("Window's hand-written Deserialize is extracted (serde glue and error-text construction dropped) and verified: an oversized buffer or an "
            "oldest-index outside the buffer is rejected with Err exactly, never a panic (from_parts's assertions are discharged by the two checks), and "
-           "accepted data yields a well-formed window with the same buffer, index and abstract sequence; window_snapshot_roundtrip proves "
+           "accepted data yields a well-formed window with the abstract sequence the data encodes (stated over the sequence, not the buffer layout); window_snapshot_roundtrip proves "
            "serialize-then-deserialize restores the same sequence. SMM's hand-written Deserialize (the only other one in the crate: it serializes just the window and "
            "rebuilds the sorted buffer and the two middle positions) is extracted the same way and verified to reject an empty window with Err and otherwise to "
            "return an instance that satisfies SMM's full representation invariant over the SAME window (sorted buffer = multiset of the window, middle positions), "
